@@ -52,6 +52,10 @@ def gen_cases(tier, seed):
     for i in range(4 if tier == 'quick' else 60):
         cases.append({'kind': 'processes', 'm': rng.choice([1, 2]), 'n': rng.choice([2, 3]), 'items': rng.choice([5, 40]), 'rounds': 2, 'pkind': ['queue', 'simple', 'stoppable', 'queue'][i % 4],
                       'seed': rng.randrange(1 << 30)})
+    # several rounds across processes: every copy of the queue lives in its own process, suppliers finish together, consumer 0 renews
+    for i in range(4 if tier == 'quick' else 60):
+        cases.append({'kind': 'processes', 'm': [2, 3, 4, 2][i % 4], 'n': [2, 3, 2, 4][i % 4], 'items': rng.choice([0, 3, 20]), 'prounds': [2, 3][i % 2],
+                      'pkind': ['queue', 'simple', 'stoppable', 'queue'][i % 4], 'seed': rng.randrange(1 << 30)})
     return cases
 
 
@@ -327,7 +331,7 @@ def _p_supplier(q, s, counts, rounds):
         q.put_end(wait_for_renew=True)
 
 
-def _p_consumer(q, c, rounds, out, renew_q, n):
+def _p_consumer(q, c, rounds, out, renew_q, n, go_q=None):
     for r in range(rounds):
         got = [x for x in q]
         out.put((r, c, got))
@@ -338,9 +342,10 @@ def _p_consumer(q, c, rounds, out, renew_q, n):
                     renew_q.get()
                 q.renew()
                 for _ in range(n - 1):
-                    out.put(('go', r))
+                    go_q.put(r)
             else:
                 renew_q.put(1)
+                go_q.get()  # the next round starts after consumer 0 has renewed
     return True
 
 
@@ -350,7 +355,7 @@ def run_processes(case):
 
     # processes: round separation is driven by messages; consumers other than #0 wait for 'go' on a per-round event
     rng = random.Random(case['seed'])
-    m, n, rounds = case['m'], case['n'], 1  # one round across processes (renew across processes is exercised in threads)
+    m, n, rounds = case['m'], case['n'], case.get('prounds', 1)
     viol = []
     obs = {'process_runs': 1, 'items_delivered': 0}
     pk = case.get('pkind', 'queue')
@@ -360,24 +365,25 @@ def run_processes(case):
         q = MQ.IterableQueue(mm.Queue(), num_suppliers=m, to_stop=mm.Event())  # travels to the children together with the queue
     else:
         q = MQ.IterableQueue(mm.Queue(), num_suppliers=m)
-    counts = [[rng.randrange(0, case['items'] + 1) for _ in range(m)]]
+    counts = [[rng.randrange(0, case['items'] + 1) for _ in range(m)] for _ in range(rounds)]
     out = mm.Queue()
     renew_q = mm.Queue()
+    go_q = mm.Queue()
     procs = [mm.Process(target=_p_supplier, args=(q, s, counts, rounds)) for s in range(m)]
-    procs += [mm.Process(target=_p_consumer, args=(q, c, rounds, out, renew_q, n)) for c in range(n)]
+    procs += [mm.Process(target=_p_consumer, args=(q, c, rounds, out, renew_q, n, go_q)) for c in range(n)]
     for p in procs:
         p.start()
     got = []
     try:
         def collect():
-            for _ in range(n):
+            for _ in range(n * rounds):
                 got.append(out.get(timeout=60))
             for p in procs:
                 p.join()
 
         watch.run_bounded(collect, 90, 'process round')
     except watch.Hang as h:
-        viol.append({'mech': 'iterq/consumer-never-finishes', 'msg': f'process variant: {len(got)} of {n} consumers reported', 'stacks': h.stacks})
+        viol.append({'mech': 'iterq/consumer-never-finishes', 'msg': f'process variant ({rounds} round(s)): {len(got)} of {n * rounds} consumer reports arrived', 'stacks': h.stacks})
         for p in procs:
             try:
                 p.kill()
@@ -388,12 +394,22 @@ def run_processes(case):
         viol.append({'mech': 'iterq/unexpected-error', 'msg': f'process variant: {e!r}'})
         return {'violations': viol, 'obs': obs, 'exit_after': True, 'nontrivial': True, 'sig': repr(case)}
     items = [tuple(x) for _, _, g in got for x in g]
-    exp = [(0, s, i) for s in range(m) for i in range(counts[0][s])]
+    exp = [(r, s, i) for r in range(rounds) for s in range(m) for i in range(counts[r][s])]
     obs['items_delivered'] = len(items)
-    if sorted(items) != sorted(exp):
-        viol.append({'mech': 'iterq/items-lost' if len(items) < len(exp) else 'iterq/items-duplicated', 'msg': f'process variant: received {len(items)} items, put {len(exp)}'})
+    if rounds > 1:
+        obs['process_renews'] = rounds - 1
+    for r in range(rounds):
+        gr = sorted(tuple(x) for rr, _, g in got if rr == r for x in g)
+        er = sorted(x for x in exp if x[0] == r)
+        if gr != er and not viol:
+            wrong = [x for x in gr if x[0] != r]
+            if wrong:
+                viol.append({'mech': 'iterq/item-from-another-round', 'msg': f'process variant: round {r} delivered {wrong[:3]!r}'})
+            else:
+                viol.append({'mech': 'iterq/items-lost' if len(gr) < len(er) else 'iterq/items-duplicated',
+                             'msg': f'process variant: round {r} of {rounds}: consumers received {len(gr)} items, suppliers put {len(er)} (per consumer: {[(c, len(g)) for rr, c, g in got if rr == r]})'})
     return {'violations': viol, 'obs': obs, 'nontrivial': True, 'sig': repr((m, n, case['seed'])), 'exit_after': True,
-            'sample': {'kind': 'processes', 'suppliers': m, 'consumers': n, 'items': len(exp), 'per_consumer': [len(g) for _, _, g in got]}}
+            'sample': {'kind': 'processes', 'suppliers': m, 'consumers': n, 'rounds': rounds, 'items': len(exp), 'per_consumer': [len(g) for _, _, g in got]}}
 
 
 def run_early_put(case):
@@ -450,4 +466,4 @@ def decide_inconclusive(obs, results, cases):
     return None
 
 
-RULE = RULE + '; overlap rounds (consumers start the next round while renew runs); queue.SimpleQueue and process queues between threads; SimpleQueue / stop event across processes; early-put cases (known finding)'
+RULE = RULE + '; overlap rounds (consumers start the next round while renew runs); queue.SimpleQueue and process queues between threads; SimpleQueue / stop event across processes; early-put cases (known finding); 2-3 rounds with renew across 2-4 supplier and 2-4 consumer processes'
